@@ -67,12 +67,26 @@ class LeanSide:
             self.unlock()
         return p.returncode == 0, (p.stdout + p.stderr)[-6000:]
 
-    def grep_forbidden(self, allow_bv=()):
+    def closure(self, modules):
+        """source files of the given modules and of everything under Ebv they import"""
+        seen, todo = {}, list(modules)
+        while todo:
+            m = todo.pop()
+            if m in seen or not m.startswith("Ebv"):
+                continue
+            f = LEAN / (m.replace(".", "/") + ".lean")
+            if not f.exists():
+                continue
+            src = f.read_text()
+            seen[m] = (f, src)
+            todo.extend(re.findall(r"^import\s+(\S+)", src, re.M))
+        return seen
+
+    def grep_forbidden(self, modules, allow_bv=()):
         hits = []
-        for f in sorted((LEAN / "Ebv").rglob("*.lean")):
-            src = strip_comments(f.read_text())
-            for m in FORBIDDEN.finditer(src):
-                tok = m.group(0).strip()
+        for m, (f, src) in sorted(self.closure(modules).items()):
+            for mt in FORBIDDEN.finditer(strip_comments(src)):
+                tok = mt.group(0).strip()
                 if tok == "bv_decide" and f.stem in allow_bv:
                     continue
                 hits.append(f"{f.relative_to(LEAN)}: {tok}")
